@@ -286,25 +286,43 @@ def mediaCall (b : MediaPlaylistBuilder) (call : Str) : Option (Res MediaPlaylis
       | none => none
     else none
 
-/-- `build_media`: outer `none` = `bad-op` -/
-def buildMediaScript (script : Str) : Option (Res MediaPlaylist) :=
-  let calls := if script.isEmpty then [] else splitAll '\n' script
-  let rec go : List Str → MediaPlaylistBuilder → Option (Res MediaPlaylist)
-    | [], b => some b.build
-    | c :: cs, b =>
+/-- a `parse <text>` call (only allowed as the last call of a script) -/
+def isParseCall (c : Str) : Bool :=
+  match tokens c with
+  | name :: _ => name == "parse".toList
+  | [] => false
+
+def parseCallText? (c : Str) : Option Str :=
+  match tokens c with
+  | [_, a] => hexArg? a
+  | _ => none
+
+def buildMediaGo : List Str → MediaPlaylistBuilder → Option (Res MediaPlaylist)
+  | [], b => some b.build
+  | c :: cs, b =>
+    if isParseCall c then
+      -- `builder.parse(text)` on the builder as configured so far, instead of `builder.build()`
+      match cs, parseCallText? c with
+      | [], some t => some (parseMediaWith b t)
+      | _, _ => none
+    else
       match mediaCall b c with
-      | some (.ok b') => go cs b'
+      | some (.ok b') => buildMediaGo cs b'
       | some .err =>
         -- the rest of the script must still be well formed (the runner validates the whole script first)
-        match go cs b with
+        match buildMediaGo cs b with
         | some _ => some .err
         | none => none
       | some .panic =>
-        match go cs b with
+        match buildMediaGo cs b with
         | some _ => some .panic
         | none => none
       | none => none
-  go calls {}
+
+/-- `build_media`: outer `none` = `bad-op` -/
+def buildMediaScript (script : Str) : Option (Res MediaPlaylist) :=
+  let calls := if script.isEmpty then [] else splitAll '\n' script
+  buildMediaGo calls {}
 
 def parseAll {α} (p : Str → Res α) (args : List Str) : Option (List α) :=
   allSome (args.map fun a =>
